@@ -247,7 +247,14 @@ class CommandLineJob(Job):
             # Get from pidpath file
             from experimaestro.connectors import Process
 
-            pinfo = json.loads(self.pidpath.read_text())
+            try:
+                pinfo = json.loads(self.pidpath.read_text())
+            except json.JSONDecodeError:
+                # The file was created but not written: the scheduler that
+                # started the job died in between, there is no usable
+                # information about the process
+                logger.warning("Ignoring invalid process file %s", self.pidpath)
+                return None
             p = Process.fromDefinition(self.launcher.connector, pinfo)
             if p is None:
                 return None
